@@ -43,13 +43,15 @@ LEVEL_OVERRIDE = {
     'C16': ('other', 'Proof of the FOOTPRINT PREMISE only (every store of every function under contract lies inside its assigns clause = memory reachable '
                      'from its parameters; every static-lifetime object is const). The step from disjoint footprints to data-race freedom under every '
                      'schedule is the standard non-interference argument and is NOT mechanised; no schedule is explored.'),
-    'C18': ('other', 'Proof for the receive paths of THREE of the six listeners: acf-can-listener.c:new_packet (arbitrary datagram 0..1500 bytes, '
-                     'UDP/raw x TSCF/NTSCF x classic/FD symbolic), aaf-listener.c:new_packet and cvf-listener.c:new_packet with their helpers '
-                     '(is_valid_packet, schedule_sample / schedule_nal, get_h264_data_len, get_presentation_time, arm_timer), each function enforced '
-                     'against its own contract with callees replaced: memory safety, termination, queue stays well formed, and the listener gives up '
-                     '(-1) only if a system call failed. NOT covered: the hello-world (GPC), ACF-VSS and CRF listeners; timeout() paths; '
-                     'printf("%s") on unterminated packet bytes (invisible to CBMC\'s printf model); reads of stale in-bounds bytes beyond the '
-                     'received length; main() loops and socket set-up.'),
+    'C18': ('other', 'Proof for the receive paths of ALL SIX example listeners, each function enforced against its own contract with callees replaced: '
+                     'acf-can-listener.c:new_packet (loop contract with variant; arbitrary datagram 0..1500 bytes, UDP/raw x TSCF/NTSCF x classic/FD symbolic); '
+                     'aaf-listener.c and cvf-listener.c: new_packet and helpers; hello-world-listener.c and acf-vss-listener.c: the body of main()\'s receive loop '
+                     '(loop contract: one iteration from an arbitrary state; printf string conversions checked by an executable model); crf-listener.c: both receive '
+                     'functions and the media-clock queue operations (search loop closed by a loop contract with a variant). Obligations: memory safety, termination, '
+                     'queues stay well formed, the listener gives up only if a system call failed. "other" because parts are bounded or assumed and say so: '
+                     'mclk_dequeue_ts is enforced on queues of depth 1..2; the induction "queue abstraction holds after any number of loop iterations" is not mechanised; '
+                     'fallback obligations (used only when the code was restructured) are bounded. NOT covered: timeout()/tx paths, poll loops, socket set-up, '
+                     'reads of stale in-bounds bytes beyond the received length.'),
 }
 
 
@@ -268,6 +270,8 @@ def cmd_check(pid, tier, seed):
         vio_lines.append(line)
     if pid == 'C16' and scan_violation:
         vio_lines.append(scan_violation)
+    for n in model.get('notes', []):
+        sys.stderr.write('NOTE %s\n' % n)
     for r in undecided:
         sys.stderr.write('UNDECIDED obligation %s (%s): %s\n' % (r.job.name, r.job.config, r.reason[:600]))
 
@@ -299,6 +303,7 @@ def cmd_check(pid, tier, seed):
         'obligations_superseded_by_fallback': superseded,
         'vacuity_guard': 'every harness ends in a reachability canary that must be reported FAILED; %d canaries checked' % sum(1 for r in results if r.canary_ok),
         'tool_warnings': sorted(warnings)[:20],
+        'api_not_in_oracle': list(model.get('notes', [])),
         'samples': samples,
         'known_findings_listed': [f.get('what') for _, f in knowns],
         'obligations_failing_due_to_known_findings': known_failed,
